@@ -102,6 +102,7 @@ type State struct {
 	clockReads int
 	lockCounts map[string]int // immutable: replaced on update
 	goroutines []goroutine    // go statements met so far and not yet run (immutable: replaced on update)
+	grouped    map[string]int // (symbolic index term, partition) -> representative index of the element group chosen at a fork (immutable)
 }
 
 // goroutine is a go statement's callee and arguments, evaluated at the statement.
@@ -148,6 +149,7 @@ func (s *State) clone() *State {
 		clockReads: s.clockReads,
 		lockCounts: s.lockCounts,
 		goroutines: s.goroutines,
+		grouped:    s.grouped,
 	}
 	if s.panicking != nil {
 		pi := *s.panicking
